@@ -176,9 +176,43 @@ def micro_c08_scenario(r) -> Dict[str, Any]:
             "actions": {"BTC/USD@1": orders}, "on_order_event": [], "jobs": []}
 
 
+def micro_c07_blocked_repayment(r) -> Dict[str, Any]:
+    """An auto-repay order closes (cancelled after a partial fill, or completed) while the loan it should repay can
+    only be paid by dipping into funds another open order has on hold: the repayment is skipped, the closing request
+    itself succeeds, and nothing else changes."""
+    p0 = D(r.choice([100, 1000]))
+    up = max(q(p0 * D(r.choice(["1.2", "1.5"])), 2), unit(2))
+    frac = D(r.choice(["0.6", "0.8", "0.9"]))
+    amt = D(r.choice(["2", "4"]))
+    part = amt / 2
+    flat = lambda t, px, vol: [t, _s(px), _s(px), _s(px), _s(px), _s(vol)]  # noqa: E731
+    bars = [flat(1, p0, 1000), flat(2, p0, 1000), flat(3, up, part * 4), flat(4, up, 1000 if r.random() < 0.5 else 0),
+            flat(5, up, 1000)]
+    cond = {"interest_symbol": "USD", "pct": r.choice(["0", "10", "40"]), "period_s": r.choice([0, 365 * 86400]),
+            "min": r.choice(["0", "0.01"]), "req": r.choice(["0.25", "0.5"])}
+    closing = [{"op": "order", "kind": "limit", "side": "buy", "pair": "BTC/USD", "amount": _s(part), "limit": _s(q(p0 * frac, 2)),
+                "auto_borrow": False, "auto_repay": False}]
+    if r.random() < 0.7:
+        closing.append({"op": "cancel", "among": "open", "pick": 0})
+    actions = {
+        "BTC/USD@1": [{"op": "order", "kind": r.choice(["market", "limit"]), "side": "buy", "pair": "BTC/USD", "amount": _s(amt),
+                       "limit": _s(p0), "auto_borrow": True, "auto_repay": False}],
+        "BTC/USD@2": [{"op": "order", "kind": "limit", "side": "sell", "pair": "BTC/USD", "amount": _s(amt), "limit": _s(up),
+                       "auto_borrow": False, "auto_repay": True}],
+        "BTC/USD@3": closing,
+        "BTC/USD@4": [{"op": "query"}],
+    }
+    return {"class": "micro_c07", "symbols": {"BTC": 4, "USD": 2}, "pairs": [["BTC", "USD"]], "explicit_pair_info": [],
+            "early_lookup": False, "fee": None, "liq": {"limit": "25", "impact": "0"},
+            "lend": {"quote": "USD", "default": cond, "per_symbol": {}}, "max_concurrent": 50, "bars": {"BTC/USD": bars},
+            "init": {"USD": _s(p0 * amt / 2), "BTC": "0"}, "actions": actions, "on_order_event": [], "jobs": []}
+
+
 def micro_c07_scenario(r) -> Dict[str, Any]:
     """Requests that fail *late*: a pair whose first bar comes after the request, so that a price is missing at one
     of the internal steps (valuing the margin, converting the interest, estimating a market order)."""
+    if r.random() < 0.25:
+        return micro_c07_blocked_repayment(r)
     sc = gen.gen_scenario(r, "margin")
     sc["class"] = "micro_c07"
     sc["symbols"] = {"BTC": 4, "ETH": 3, "USD": 2}
